@@ -4,7 +4,7 @@ from __future__ import annotations
 import logging
 
 from .const import *
-from .exceptions import RequestFailedException, RequestRejectedException
+from .exceptions import InverterError, RequestFailedException, RequestRejectedException
 from .inverter import Inverter, OperationMode, SensorKind as Kind
 from .modbus import ILLEGAL_DATA_ADDRESS
 from .model import is_2_battery, is_4_mppt, is_745_platform, is_single_phase
@@ -791,7 +791,10 @@ class ET(Inverter):
             await self._set_offline(False)
 
     async def get_ongrid_battery_dod(self) -> int:
-        return 100 - await self.read_setting('battery_discharge_depth')
+        discharge_depth = await self.read_setting('battery_discharge_depth')
+        if discharge_depth is None:
+            raise InverterError("Battery discharge depth is not available.")
+        return 100 - discharge_depth
 
     async def set_ongrid_battery_dod(self, dod: int) -> None:
         if 0 <= dod <= 100:
